@@ -473,7 +473,7 @@ class Interp:
                 r = h(self, st, v, fr)
                 if r is not None:
                     return r
-            raise AnalysisError(f'{fr.mod.where(st)}: branch on a symbolic condition `{ast.unparse(st.test)[:80]}`')
+            raise AnalysisError(f'{fr.mod.where(st)}: branch on a symbolic condition `{ast.unparse(getattr(st, "test", st))[:80]}`')
         if isinstance(v, Opaque):
             h = self.hooks.get('branch')
             if h is not None:
@@ -485,7 +485,7 @@ class Interp:
                 r = h(self, st, v, fr)            # a predicate on data whose outcome is not determined by the symbolic state: both outcomes are explored
                 if r is not None:
                     return r
-            raise AnalysisError(f'{fr.mod.where(st)}: branch on an opaque condition `{ast.unparse(st.test)[:80]}`')
+            raise AnalysisError(f'{fr.mod.where(st)}: branch on an opaque condition `{ast.unparse(getattr(st, "test", st))[:80]}`')
         if isinstance(v, Arr):
             return True
         return bool(v)
@@ -703,8 +703,16 @@ class Interp:
             if m is None:
                 return self.external(d, a)
             return self.global_name(m, a)
+        if isinstance(base, ArrBox):
+            if a == 'copy': return (lambda *a_, **k_: ArrBox(base.v))          # a new array with the same content
+            if a == 'fill':
+                def fill(v_, base=base): base.v = to_node(v_)
+                return fill
+            if a in ('shape', 'size', 'ndim', 'dtype'): return Opaque('array.' + a)
+            base = base.v
         if isinstance(base, Node) or isinstance(base, (int, Fraction)):
             b = to_node(base)
+            if a == 'copy': return (lambda *a_, **k_: b)
             if a == 'real': return X.fn('real', b)
             if a == 'imag': return X.fn('imag', b)
             if a in ('conjugate', 'conj'): return Builtin('conj_of:' + str(b.uid))
@@ -1346,6 +1354,13 @@ class Interp:
             return TypeTag('scalar' if isinstance(a, (Node, Fraction)) else type(a).__name__)
         if nm == 'print':
             return None
+        if nm in ('any', 'all') and (isinstance(args[0], ArrBox) or is_num(args[0]) or isinstance(args[0], bool)):
+            # one generic element stands for the array: any(x) / all(x) is `x != 0` for it (decided, or forked like any data-dependent test)
+            a_ = unbox(args[0])
+            if isinstance(a_, bool): return a_
+            c_ = concrete(to_node(a_))
+            if c_ is not None: return c_ != 0
+            return self.truth(X.cmp('!=', to_node(a_), X.ZERO), e, fr)
         if nm in ('any', 'all'):
             vals = [self.truth(v, e, fr) for v in args[0]]
             return any(vals) if nm == 'any' else all(vals)
